@@ -59,7 +59,7 @@ def _pipeline(case):
     for m in sorted(set([1, 2, (nq - 1) // 2, nq // 2])):
         dens.append(('cos(%d theta)' % m, np.exp(-0.1 * (I[0] - 3) ** 2) * np.cos(m * eta[1][None, None, :] + 0.3 * I[1]), True))
     dens.append(('dense', np.sin(1 + 1.3 * I[0] + 0.7 * I[1] + 2.1 * I[2]) + 0.2 * I[0], True))
-    dens.append(('tiny', 1e-11 * (np.sin(1 + 1.3 * I[0] + 0.7 * I[1] + 2.1 * I[2]) + 0.2 * I[0]), True))      # the pipeline is linear in the density
+    dens.append(('tiny', 1e-20 * (np.sin(1 + 1.3 * I[0] + 0.7 * I[1] + 2.1 * I[2]) + 0.2 * I[0]), True))      # the pipeline is linear in the density
     dens.append(('complex', (np.sin(1 + 1.3 * I[0] + 0.7 * I[1] + 2.1 * I[2]) * (1 + 0.5j) + 0.25j * I[2]), False))
 
     def fn(r):
